@@ -1,8 +1,146 @@
-import Pun.Model.Proto
+import Pun.Model.Elem
+/-!
+C05 line protocol.  `S` = scalar form, `A` = array form (lists of equal length).
+Transcendental values and the rounded intermediates of the real code (`w = hi - lo`,
+`yl = lo % T`, `yh = hi % T`) come on the wire; the handler checks the intermediates against
+the exact rational computation (`wire-mismatch` if they differ by more than rounding) and the
+model takes its decisions on the supplied values.
+-/
 namespace Pun.Drv.C05
-open Pun
+open Pun Pun.Elem
+
+def showPair (p : Rat × Rat) : String := s!"{showRat p.1} {showRat p.2}"
+
+def showE : Except Err (Rat × Rat) → String
+  | .ok p => "ok " ++ showPair p
+  | .error e => s!"err {e}"
+
+def showEA : Except Err (List (Rat × Rat)) → String
+  | .ok l => s!"ok {showList (l.map (·.1))} {showList (l.map (·.2))}"
+  | .error e => s!"err {e}"
+
+def absQ (x : Rat) : Rat := if x < 0 then -x else x
+
+/-- rounded width consistent with the exact one -/
+def nearW (w lo hi : Rat) : Bool :=
+  decide (absQ (w - (hi - lo)) ≤ (absQ lo + absQ hi + absQ w) * mkRat 1 4503599627370496)
+
+/-- rounded `x % T` consistent with the exact one (absolute 2^-50) -/
+def nearM (y x T : Rat) : Bool :=
+  decide (absQ (y - fmodR x T) ≤ mkRat 1 1125899906842624)
+
+def lists (ts : List String) : Option (List (List Rat)) := ts.mapM parseList
+
+def sameLen (ls : List (List Rat)) : Bool :=
+  match ls with
+  | [] => true
+  | l :: r => r.all (fun m => m.length == l.length)
+
+def parseKind : String → Option ExpKind
+  | "int" => some .int | "npint" => some .npint | "float" => some .float | "bool" => some .bool
+  | _ => none
+
+def zip7 : List Rat → List Rat → List Rat → List Rat → List Rat → List Rat → List Rat →
+    List (Rat × Rat × TrigArg)
+  | a :: as, b :: bs, c :: cs, d :: ds, e :: es, f :: fs, g :: gs =>
+    (a, b, ⟨c, d, e, f, g⟩) :: zip7 as bs cs ds es fs gs
+  | _, _, _, _, _, _, _ => []
+
+def okArgs (T : Rat) (xs : List (Rat × Rat × TrigArg)) : Bool :=
+  xs.all (fun (lo, hi, x) => nearW x.w lo hi && nearM x.yl lo T && nearM x.yh hi T)
+
+def showTan : Except Err (Option (Rat × Rat)) → String
+  | .ok none => "ok inf"
+  | .ok (some p) => "ok " ++ showPair p
+  | .error e => s!"err {e}"
+
+def showTanA : Except Err (List (Option (Rat × Rat))) → String
+  | .ok l =>
+    let a := l.map (fun o => match o with | none => (0 : Rat) | some p => p.1)
+    let b := l.map (fun o => match o with | none => (0 : Rat) | some p => p.2)
+    let m := l.map (fun o => match o with | none => (1 : Nat) | some _ => 0)
+    s!"ok {showList a} {showList b} {showNatList m}"
+  | .error e => s!"err {e}"
 
 def handle : List String → String
+  | ["consts"] => s!"ok {showRat piD} {showRat twopiD}"
+  | ["abs", "S", lo, hi] =>
+    match parseRat lo, parseRat hi with
+    | some lo, some hi => let p := absI lo hi; showE (mkI p.1 p.2)
+    | _, _ => "bad-op"
+  | ["abs", "A", lo, hi] =>
+    match lists [lo, hi] with
+    | some [lo, hi] => if lo.length == hi.length then showEA (mkA (absA lo hi)) else "bad-op"
+    | _ => "bad-op"
+  | ["pow", "S", kind, k, lo, hi] =>
+    match parseKind kind, parseInt k, parseRat lo, parseRat hi with
+    | some kind, some k, some lo, some hi => showE (powOp kind k lo hi)
+    | _, _, _, _ => "bad-op"
+  | ["pow", "A", kind, k, lo, hi] =>
+    match parseKind kind, parseInt k, lists [lo, hi] with
+    | some kind, some k, some [lo, hi] =>
+      if lo.length == hi.length then showEA (powA kind k lo hi) else "bad-op"
+    | _, _, _ => "bad-op"
+  | [fn, "S", lo, hi, flo, fhi] =>
+    match [lo, hi, flo, fhi].mapM parseRat with
+    | some [lo, hi, flo, fhi] =>
+      match fn with
+      | "exp" => showE (expI flo fhi)
+      | "sqrt" => showE (sqrtI lo hi flo fhi)
+      | "log" => showE (logI lo flo fhi)
+      | _ => "bad-op"
+    | _ => "bad-op"
+  | [fn, "A", lo, hi, flo, fhi] =>
+    match lists [lo, hi, flo, fhi] with
+    | some [lo, hi, flo, fhi] =>
+      if !sameLen [lo, hi, flo, fhi] then "bad-op" else
+      match fn with
+      | "exp" => showEA (expA flo fhi)
+      | "sqrt" => showEA (sqrtA lo hi flo fhi)
+      | "log" => showEA (logA lo flo fhi)
+      | _ => "bad-op"
+    | _ => "bad-op"
+  | ["sig", "S", enh, enl] =>
+    match parseRat enh, parseRat enl with
+    | some a, some b => showE (sigmoidI a b)
+    | _, _ => "bad-op"
+  | ["sig", "A", enh, enl] =>
+    match lists [enh, enl] with
+    | some [a, b] => if a.length == b.length then showEA (sigmoidA a b) else "bad-op"
+    | _ => "bad-op"
+  | ["tanh", "S", e2l, e2h] =>
+    match parseRat e2l, parseRat e2h with
+    | some a, some b => showE (tanhI a b)
+    | _, _ => "bad-op"
+  | ["tanh", "A", e2l, e2h] =>
+    match lists [e2l, e2h] with
+    | some [a, b] => if a.length == b.length then showEA (tanhA a b) else "bad-op"
+    | _ => "bad-op"
+  | [fn, "S", lo, hi, w, yl, yh, sl, sh] =>
+    match [lo, hi, w, yl, yh, sl, sh].mapM parseRat with
+    | some [lo, hi, w, yl, yh, sl, sh] =>
+      let T := if fn == "tan" then piD else twopiD
+      if !(nearW w lo hi && nearM yl lo T && nearM yh hi T) then "wire-mismatch" else
+      match fn with
+      | "sin" => showE (sinI T w yl yh sl sh)
+      | "cos" => showE (cosI T w yl yh sl sh)
+      | "tan" => showTan (tanI T w yl yh sl sh)
+      | _ => "bad-op"
+    | _ => "bad-op"
+  | [fn, "A", lo, hi, w, yl, yh, sl, sh] =>
+    match lists [lo, hi, w, yl, yh, sl, sh] with
+    | some [lo, hi, w, yl, yh, sl, sh] =>
+      if !sameLen [lo, hi, w, yl, yh, sl, sh] then "bad-op" else
+      let T := if fn == "tan" then piD else twopiD
+      let xs := zip7 lo hi w yl yh sl sh
+      if !okArgs T xs then "wire-mismatch" else
+      let args := xs.map (fun (_, _, x) => x)
+      match fn with
+      | "sin" => showEA (sinA T args)
+      | "cos" => showEA (cosA T args)
+      | "tan" => showTanA (tanA T args)
+      | _ => "bad-op"
+    | _ => "bad-op"
   | _ => "bad-op"
 
 end Pun.Drv.C05
